@@ -319,34 +319,56 @@ Definition o_w (t : otree) : Z := let 'ONode w _ _ _ _ := t in w.
 Definition o_h (t : otree) : Z := let 'ONode _ h _ _ _ := t in h.
 Definition o_kids (t : otree) : list (Z * Z * Z * otree) := let 'ONode _ _ _ _ k := t in k.
 
-(* margins of a centred child that fits: inside the parent, left/right and top/bottom
-   margins equal to within one cell *)
+(* The single child of a Center / Button: it was drawn with the maximum the parent received, so
+   it is no larger than the parent; it lies inside the parent and the left/right and top/bottom
+   margins are equal to within one cell *)
 Definition centred (pw ph : Z) (k : Z * Z * Z * otree) : bool :=
   let '(col, row, _, ch) := k in
   let cw := o_w ch in let chh := o_h ch in
-  if (cw <=? pw) && (chh <=? ph) then
-    (0 <=? col) && (col + cw <=? pw) && (Z.abs (col - (pw - cw - col)) <=? 1) &&
-    (0 <=? row) && (row + chh <=? ph) && (Z.abs (row - (ph - chh - row)) <=? 1)
-  else true.
+  (cw <=? pw) && (chh <=? ph) &&
+  (0 <=? col) && (col + cw <=? pw) && (Z.abs (col - (pw - cw - col)) <=? 1) &&
+  (0 <=? row) && (row + chh <=? ph) && (Z.abs (row - (ph - chh - row)) <=? 1).
 
-Definition is_centering (ws : wspec) : bool :=
-  match ws with WCenter _ | WButton _ => true | _ => false end.
+Definition kid_otree (k : Z * Z * Z * otree) : otree := let '(_, _, _, t) := k in t.
+
+(* list.Dynamic: the surface an item returned.  Items are placed at column 2 when the list draws
+   its cursor (0 otherwise); the cursored item is wrapped into a surface at column 0 whose only
+   child it is. *)
+Definition list_off (drawcur : bool) : Z := if drawcur then 2 else 0.
+Definition item_tree (drawcur : bool) (k : Z * Z * Z * otree) : otree :=
+  let '(c, _, _, t) := k in
+  if drawcur && (c =? 0) then match o_kids t with [k'] => kid_otree k' | _ => t end else t.
+
+(* "No larger than the maximum it was given" for EVERY widget of a tree, with the maximum each
+   one is given by its parent (Center and Button pass their own maximum on; a Dynamic passes
+   (Max.Width - colOffset in uint16, 65535)), and the centring of Center / Button. *)
+Fixpoint tree_ok (ws : wspec) (maxw maxh : Z) (t : otree) : bool :=
+  (o_w t <=? maxw) && (o_h t <=? maxh) &&
+  match ws with
+  | WCenter ch =>
+      match o_kids t with
+      | [k] => centred (o_w t) (o_h t) k && tree_ok ch maxw maxh (kid_otree k)
+      | [] => (o_w t =? 0) && (o_h t =? 0)
+      | _ => false
+      end
+  | WButton _ =>
+      match o_kids t with
+      | [k] => centred (o_w t) (o_h t) k
+      | [] => (o_w t =? 0) && (o_h t =? 0)
+      | _ => false
+      end
+  | WList drawcur _ _ =>
+      forallb (fun k => o_w (item_tree drawcur k) <=? u16 (maxw - list_off drawcur)) (o_kids t)
+  | _ => true
+  end.
 
 (* The layout contract on one observation: a panic only where the documentation announces one;
-   otherwise the returned size is within the maximum, every surface of the tree is well formed
-   and, for Center/Button, the single child is centred when it fits. *)
+   otherwise every surface of the tree is well formed, every widget of the tree returned a
+   surface within the maximum it was given and, for Center/Button, the single child is centred. *)
 Definition draw_ok (c : draw_input * draw_obs) : bool :=
   let '((ws, maxw, maxh), (out, t)) := c in
   if out =? 1 then contract_panic ws maxw maxh
-  else
-    (out =? 0) && (o_w t <=? maxw) && (o_h t <=? maxh) && otree_wf t &&
-    (if is_centering ws then
-       match o_kids t with
-       | [k] => centred (o_w t) (o_h t) k
-       | [] => (o_w t =? 0) && (o_h t =? 0)
-       | _ => false
-       end
-     else true).
+  else (out =? 0) && otree_wf t && tree_ok ws maxw maxh t.
 
 Definition c14_draw_mismatches (cases : list (draw_input * draw_obs)) : list Z :=
   bad_indices (fun c => negb (draw_obs_eqb (draw_run (fst c)) (snd c))) cases.
